@@ -91,7 +91,7 @@ func extendScenario(ch chain) engine.Scenario {
 				for i, q := range ch.Q {
 					for j := 0; j < N; j++ {
 						if outQ.Coeffs[i][j] != umod(xs[j], q) {
-							c.Fail("C02/extend/ringqp.ExtendBasisSmallNormAndCenter/Q-part-changed", "%s: Q part row %d lane %d = %d, want the input %d", ch.name, i, j, outQ.Coeffs[i][j], umod(xs[j], q))
+							fail(c, "C02/extend/ringqp.ExtendBasisSmallNormAndCenter/Q-part-changed", "%s: Q part row %d lane %d = %d, want the input %d", ch.name, i, j, outQ.Coeffs[i][j], umod(xs[j], q))
 							return
 						}
 					}
@@ -123,7 +123,7 @@ func extendScenario(ch chain) engine.Scenario {
 			for i, p := range dst {
 				for j := 0; j < N; j++ {
 					if out[i][j]%p != umod(xs[j], p) {
-						c.Fail("C02/extend/"+[]string{"ringqp.ExtendBasisSmallNormAndCenter", "rlwe.ExtendBasisSmallNormAndCenterNTTMontgomery", "rlwe.ExtendBasisSmallNormAndCenterNTTMontgomery"}[fn]+"/value",
+						fail(c, "C02/extend/"+[]string{"ringqp.ExtendBasisSmallNormAndCenter", "rlwe.ExtendBasisSmallNormAndCenterNTTMontgomery", "rlwe.ExtendBasisSmallNormAndCenterNTTMontgomery"}[fn]+"/value",
 							"%s fn=%d: x=%d lane %d: output mod %d is %d, want %d", ch.name, fn, xs[j], j, p, out[i][j]%p, umod(xs[j], p))
 						return
 					}
